@@ -1,4 +1,4 @@
 From Coq Require Import ExtrOcamlBasic ExtrOcamlString.
 From IV Require Import C15.Defs.
 Extraction Language OCaml.
-Extraction "ext.ml" manifest_ctor expand_call scan_raw show_line_strip command_line.
+Extraction "ext.ml" manifest_ctor expand_call scan_raw show_line_strip command_line save_expansion.
